@@ -1,0 +1,27 @@
+//go:build verif
+
+package files
+
+// Contracts for the deductive verifier in /verif (gocv). Comment-only file,
+// compiled only under the `verif` build tag.
+//
+// C20 (extraction confined to the target): every file-system call that creates
+// or modifies something (os.Create, os.MkdirAll) carries the precondition
+// confined(fsroot, path); fsroot is the directory the call is allowed to write to.
+
+// opening an archive only reads (trusted: os.Stat, os.Open, zip.NewReader)
+//@ assumed func NewZipIterator(zipFile string) (ZipIterator, error)
+//@   ensures r1 == nil ==> r0 != nil
+// an archive is an arbitrary sequence of entries with arbitrary names
+//@ assumed func (zi ZipIterator) Next() *zip.File
+//@ assumed func (zi ZipIterator) Close() error
+
+//@ func EnsureDirExists(dir string) error
+//@   props C20
+//@   requires confined(fsroot, dir)
+
+//@ func UnzipToFolder(zipFile string, destDir string) error
+//@   props C20
+//@   requires fsroot == destDir
+//@   loop 1
+//@     invariant fsroot == destDir
